@@ -7,11 +7,14 @@
 package vos
 
 import (
+	"fmt"
 	"io"
 	"io/fs"
 	"os"
+	"path/filepath"
 	"strings"
 	"syscall"
+	"time"
 
 	"golang.org/x/telemetry/internal/verifh/shim/vsched"
 )
@@ -21,14 +24,25 @@ type (
 	FileMode  = os.FileMode
 	DirEntry  = os.DirEntry
 	PathError = os.PathError
+	LinkError = os.LinkError
+	Signal    = os.Signal
 )
 
 var (
 	Args        = os.Args
 	ErrExist    = os.ErrExist
 	ErrNotExist = os.ErrNotExist
+	Stdin       = os.Stdin
 	Stdout      = os.Stdout
 	Stderr      = os.Stderr
+
+	ErrInvalid          = os.ErrInvalid
+	ErrPermission       = os.ErrPermission
+	ErrClosed           = os.ErrClosed
+	ErrDeadlineExceeded = os.ErrDeadlineExceeded
+	ErrNoDeadline       = os.ErrNoDeadline
+	Interrupt           = os.Interrupt
+	Kill                = os.Kill
 )
 
 const (
@@ -40,13 +54,61 @@ const (
 	O_EXCL   = os.O_EXCL
 	O_SYNC   = os.O_SYNC
 	O_TRUNC  = os.O_TRUNC
+
+	ModeDir        = os.ModeDir
+	ModeAppend     = os.ModeAppend
+	ModeExclusive  = os.ModeExclusive
+	ModeTemporary  = os.ModeTemporary
+	ModeSymlink    = os.ModeSymlink
+	ModeDevice     = os.ModeDevice
+	ModeNamedPipe  = os.ModeNamedPipe
+	ModeSocket     = os.ModeSocket
+	ModeSetuid     = os.ModeSetuid
+	ModeSetgid     = os.ModeSetgid
+	ModeCharDevice = os.ModeCharDevice
+	ModeSticky     = os.ModeSticky
+	ModeIrregular  = os.ModeIrregular
+	ModeType       = os.ModeType
+	ModePerm       = os.ModePerm
+
+	PathSeparator     = os.PathSeparator
+	PathListSeparator = os.PathListSeparator
+	DevNull           = os.DevNull
+
+	SEEK_SET = os.SEEK_SET
+	SEEK_CUR = os.SEEK_CUR
+	SEEK_END = os.SEEK_END
 )
 
-func Getpid() int                    { return os.Getpid() }
-func Getenv(k string) string         { return os.Getenv(k) }
-func IsExist(err error) bool         { return os.IsExist(err) }
-func IsNotExist(err error) bool      { return os.IsNotExist(err) }
-func UserConfigDir() (string, error) { return os.UserConfigDir() }
+func Getpid() int                                   { return os.Getpid() }
+func Getenv(k string) string                        { return os.Getenv(k) }
+func IsExist(err error) bool                        { return os.IsExist(err) }
+func IsNotExist(err error) bool                     { return os.IsNotExist(err) }
+func UserConfigDir() (string, error)                { return os.UserConfigDir() }
+func UserCacheDir() (string, error)                 { return os.UserCacheDir() }
+func UserHomeDir() (string, error)                  { return os.UserHomeDir() }
+func Getppid() int                                  { return os.Getppid() }
+func Getuid() int                                   { return os.Getuid() }
+func Geteuid() int                                  { return os.Geteuid() }
+func Getgid() int                                   { return os.Getgid() }
+func Getegid() int                                  { return os.Getegid() }
+func Getwd() (string, error)                        { return os.Getwd() }
+func Hostname() (string, error)                     { return os.Hostname() }
+func Executable() (string, error)                   { return os.Executable() }
+func TempDir() string                               { return os.TempDir() }
+func Environ() []string                             { return os.Environ() }
+func LookupEnv(k string) (string, bool)             { return os.LookupEnv(k) }
+func Setenv(k, v string) error                      { return os.Setenv(k, v) }
+func Unsetenv(k string) error                       { return os.Unsetenv(k) }
+func ExpandEnv(s string) string                     { return os.ExpandEnv(s) }
+func Expand(s string, m func(string) string) string { return os.Expand(s, m) }
+func Exit(code int)                                 { os.Exit(code) }
+func IsPermission(err error) bool                   { return os.IsPermission(err) }
+func IsTimeout(err error) bool                      { return os.IsTimeout(err) }
+func IsPathSeparator(c uint8) bool                  { return os.IsPathSeparator(c) }
+func SameFile(a, b FileInfo) bool                   { return os.SameFile(a, b) }
+func DirFS(dir string) fs.FS                        { return os.DirFS(dir) }
+func NewSyscallError(s string, err error) error     { return os.NewSyscallError(s, err) }
 
 // Fault, when non-nil, is asked before every call (after the yield); a
 // non-nil answer is returned as the call's error and the call is skipped.
@@ -230,3 +292,207 @@ func MkdirAll(path string, perm FileMode) error {
 }
 
 var _ fs.FileInfo = FileInfo(nil)
+
+// ---- the rest of the os surface a refactoring of internal/upload may use:
+// every call that reads or changes the file system is a yield point (and a
+// fault point in plan mode), like the calls above ----
+
+func Lstat(name string) (FileInfo, error) {
+	if err := pre("Lstat", name); err != nil {
+		return nil, err
+	}
+	return os.Lstat(name)
+}
+
+func Rename(oldpath, newpath string) error {
+	if err := pre("Rename", oldpath+" -> "+newpath); err != nil {
+		return err
+	}
+	return os.Rename(oldpath, newpath)
+}
+
+func Link(oldname, newname string) error {
+	if err := pre("Link", oldname+" -> "+newname); err != nil {
+		return err
+	}
+	return os.Link(oldname, newname)
+}
+
+func Symlink(oldname, newname string) error {
+	if err := pre("Symlink", oldname+" -> "+newname); err != nil {
+		return err
+	}
+	return os.Symlink(oldname, newname)
+}
+
+func Readlink(name string) (string, error) {
+	if err := pre("Readlink", name); err != nil {
+		return "", err
+	}
+	return os.Readlink(name)
+}
+
+func Truncate(name string, size int64) error {
+	if err := pre("Truncate", name); err != nil {
+		return err
+	}
+	return os.Truncate(name, size)
+}
+
+func Chmod(name string, mode FileMode) error {
+	if err := pre("Chmod", name); err != nil {
+		return err
+	}
+	return os.Chmod(name, mode)
+}
+
+func Chown(name string, uid, gid int) error {
+	if err := pre("Chown", name); err != nil {
+		return err
+	}
+	return os.Chown(name, uid, gid)
+}
+
+func Lchown(name string, uid, gid int) error {
+	if err := pre("Lchown", name); err != nil {
+		return err
+	}
+	return os.Lchown(name, uid, gid)
+}
+
+func Chtimes(name string, atime, mtime time.Time) error {
+	if err := pre("Chtimes", name); err != nil {
+		return err
+	}
+	return os.Chtimes(name, atime, mtime)
+}
+
+func Mkdir(name string, perm FileMode) error {
+	if err := pre("Mkdir", name); err != nil {
+		return err
+	}
+	return os.Mkdir(name, perm)
+}
+
+func RemoveAll(path string) error {
+	if err := pre("RemoveAll", path); err != nil {
+		return err
+	}
+	return os.RemoveAll(path)
+}
+
+func Create(name string) (*File, error) {
+	return OpenFile(name, O_RDWR|O_CREATE|O_TRUNC, 0666)
+}
+
+func Open(name string) (*File, error) {
+	return OpenFile(name, O_RDONLY, 0)
+}
+
+func NewFile(fd uintptr, name string) *File {
+	f := os.NewFile(fd, name)
+	if f == nil {
+		return nil
+	}
+	return &File{f}
+}
+
+// tempSeq makes the names of temporary files a function of the run (the
+// real os.CreateTemp draws random names: case lines must depend on the seed
+// only).  Reset by ResetTemp.
+var tempSeq int
+
+func ResetTemp() { tempSeq = 0 }
+
+func tempName(dir, pattern string) string {
+	if dir == "" {
+		dir = os.TempDir()
+	}
+	prefix, suffix := pattern, ""
+	if i := strings.LastIndex(pattern, "*"); i >= 0 {
+		prefix, suffix = pattern[:i], pattern[i+1:]
+	}
+	tempSeq++
+	return filepath.Join(dir, fmt.Sprintf("%s%06d%s", prefix, 770000+tempSeq, suffix))
+}
+
+func CreateTemp(dir, pattern string) (*File, error) {
+	for try := 0; try < 10000; try++ {
+		name := tempName(dir, pattern)
+		if err := pre("CreateTemp", name); err != nil {
+			return nil, err
+		}
+		f, err := os.OpenFile(name, O_RDWR|O_CREATE|O_EXCL, 0600)
+		if os.IsExist(err) {
+			continue
+		}
+		if err != nil {
+			return nil, err
+		}
+		return &File{f}, nil
+	}
+	return nil, &fs.PathError{Op: "createtemp", Path: dir, Err: os.ErrExist}
+}
+
+func MkdirTemp(dir, pattern string) (string, error) {
+	for try := 0; try < 10000; try++ {
+		name := tempName(dir, pattern)
+		if err := pre("MkdirTemp", name); err != nil {
+			return "", err
+		}
+		err := os.Mkdir(name, 0700)
+		if os.IsExist(err) {
+			continue
+		}
+		if err != nil {
+			return "", err
+		}
+		return name, nil
+	}
+	return "", &fs.PathError{Op: "mkdirtemp", Path: dir, Err: os.ErrExist}
+}
+
+// ---- File methods that change what other processes can see ----
+
+func (f *File) WriteString(s string) (int, error) { return f.Write([]byte(s)) }
+
+func (f *File) WriteAt(b []byte, off int64) (int, error) {
+	if err := pre("WriteAt", f.Name()); err != nil {
+		return 0, err
+	}
+	if PlanMode && lastKind == KShort {
+		n, _ := f.File.WriteAt(b[:len(b)/2], off)
+		return n, &fs.PathError{Op: "write", Path: f.Name(), Err: io.ErrShortWrite}
+	}
+	return f.File.WriteAt(b, off)
+}
+
+func (f *File) ReadFrom(r io.Reader) (int64, error) {
+	b, err := io.ReadAll(r)
+	if err != nil {
+		return 0, err
+	}
+	n, err := f.Write(b)
+	return int64(n), err
+}
+
+func (f *File) Truncate(size int64) error {
+	if err := pre("Truncate", f.Name()); err != nil {
+		return err
+	}
+	return f.File.Truncate(size)
+}
+
+func (f *File) Chmod(mode FileMode) error {
+	if err := pre("Chmod", f.Name()); err != nil {
+		return err
+	}
+	return f.File.Chmod(mode)
+}
+
+func (f *File) Sync() error {
+	if err := pre("Sync", f.Name()); err != nil {
+		return err
+	}
+	return f.File.Sync()
+}
